@@ -558,6 +558,8 @@ def rule_floor(ctx, rep):
 
 META["explanation"] += " " + 'Also (rounds 10-11): size -> order conversion (fls(x - 1), bsr + 1, zero case), every writer of nr_cpus_mask stores a power of two minus one (partition tiling), work-queue creation initialises the queue before the worker.'
 
+META["explanation"] += " " + 'Also (round 12 and fifth reading): level loops include both end levels, partition loops run while index < bound, the inline fallback is skipped only when start == 0, RT polarity of the work-queue worker, allocator discipline.'
+
 RULES = [
     ("C09.pow2", rule_pow2),
     ("C09.size", rule_size),
